@@ -16,12 +16,12 @@ name-keyed re-assembly of `xform_toposort_declarations` are modelled as in the c
 inductive Ty where
   | bool | int
   | named (n : Nat)       -- a derived type or function block type name
-deriving Repr, DecidableEq, BEq
+deriving Repr, DecidableEq
 
 /-- variable block classes -/
 inductive VCls where
   | var | input | output | inout | external | global
-deriving Repr, DecidableEq, BEq
+deriving Repr, DecidableEq
 
 structure AVar where
   name : Nat
@@ -29,21 +29,21 @@ structure AVar where
   const : Bool
   ty : Ty
   init : Option Nat       -- a literal for bool/int, an enumeration value for a named (enum) type
-deriving Repr, DecidableEq, BEq
+deriving Repr, DecidableEq
 
 inductive AStmt where
   /-- `target := r1 + r2 + …` (`rhs = []`: a literal) -/
   | assign (target : Nat) (rhs : List Nat)
   /-- `inst(f1 := v1, …, p1, …, o1 => t1, …)` -/
   | call (inst : Nat) (formal : List (Nat × Nat)) (positional : List Nat) (outs : List (Nat × Nat))
-deriving Repr, DecidableEq, BEq
+deriving Repr, DecidableEq
 
 /-- program instance in a configuration: instance name, task, program type -/
 structure AProgInst where
   name : Nat
   task : Option Nat
   ty : Nat
-deriving Repr, DecidableEq, BEq
+deriving Repr, DecidableEq
 
 inductive ADecl where
   | enumT (name : Nat) (values : List Nat) (dflt : Option Nat)
@@ -54,12 +54,12 @@ inductive ADecl where
   | func (name : Nat) (vars : List AVar) (body : List AStmt)
   | prog (name : Nat) (vars : List AVar) (body : List AStmt)
   | config (name : Nat) (globals : List AVar) (tasks : List Nat) (progs : List AProgInst)
-deriving Repr, DecidableEq, BEq
+deriving Repr, DecidableEq
 
 structure AFile where
   parseError : Bool            -- the file does not tokenize / parse
   decls : List ADecl
-deriving Repr, DecidableEq, BEq
+deriving Repr, DecidableEq
 
 namespace ADecl
 
